@@ -1,4 +1,4 @@
-//@ props: C13
+//@ props: C08,C13
 //@ target: src/observable.rs
 //@ thorough-subst: [u8; 3] ==> [u8; 5]
 //@ thorough-subst: kani::assume(n <= 3) ==> kani::assume(n <= 5)
@@ -117,5 +117,61 @@ fn clones_of_finalize_each_run_their_finalizer() {
   assert!(calls.get() == 1);
   copy.actual_subscribe(Probe::new(&l2));
   assert!(calls.get() == 2);
+  same(&l1, &l2);
+}
+
+// ---- from_future: every subscription of a clone polls ITS OWN future ---------------------------------
+use std::future::Future;
+use std::pin::Pin;
+use std::task::{Context, Poll};
+use crate::scheduler::{Scheduler, TaskHandle};
+
+#[derive(Clone)]
+struct NowSched;
+impl<T> Scheduler<T> for NowSched
+where
+  T: Future + Unpin,
+{
+  fn schedule(&self, mut task: T, _delay: Option<std::time::Duration>) -> TaskHandle<T::Output> {
+    let mut cx = Context::from_waker(futures::task::noop_waker_ref());
+    match Pin::new(&mut task).poll(&mut cx) {
+      Poll::Ready(v) => TaskHandle::value_handle(v),
+      Poll::Pending => panic!("the scripted future is ready on its first poll"),
+    }
+  }
+}
+#[derive(Clone)]
+struct CountingFuture { polls: Rc<Cell<u8>>, value: u8 }
+impl Future for CountingFuture {
+  type Output = u8;
+  fn poll(self: Pin<&mut Self>, _: &mut Context<'_>) -> Poll<u8> {
+    self.polls.set(self.polls.get() + 1);
+    Poll::Ready(self.value)
+  }
+}
+struct InfProbe(Probe);
+impl Observer<u8, std::convert::Infallible> for InfProbe {
+  fn next(&mut self, v: u8) { Observer::<u8, u8>::next(&mut self.0, v) }
+  fn error(self, e: std::convert::Infallible) { match e {} }
+  fn complete(self) { Observer::<u8, u8>::complete(self.0) }
+  fn is_finished(&self) -> bool { Observer::<u8, u8>::is_finished(&self.0) }
+}
+
+// [C13,C08] building polls nothing; each subscription of a clone polls its own copy of the future once
+// and relays its value and the completion
+#[kani::proof]
+#[kani::unwind(8)]
+fn clones_of_from_future_each_poll_their_own_future() {
+  let polls = Rc::new(Cell::new(0u8));
+  let v: u8 = kani::any();
+  let op = crate::observable::from_future(CountingFuture { polls: polls.clone(), value: v }, NowSched);
+  assert!(polls.get() == 0);
+  let copy = op.clone();
+  let (l1, l2) = (new_log(), new_log());
+  let _u1 = op.actual_subscribe(InfProbe(Probe::new(&l1)));
+  assert!(polls.get() == 1);
+  let _u2 = copy.actual_subscribe(InfProbe(Probe::new(&l2)));
+  assert!(polls.get() == 2);
+  assert!(count(&l1) == 2 && at(&l1, 0) == Some(Ev::Next(v)) && at(&l1, 1) == Some(Ev::Complete));
   same(&l1, &l2);
 }
